@@ -25,7 +25,13 @@ def enum_shapes(tier):
 def _grid(case):
     shape = case["shape"]
     vs = case.get("voxel_size", [1.0] * len(shape))
-    return darsia.Grid(shape=tuple(shape), voxel_size=list(vs)), RefGrid(shape, vs)
+    g = darsia.Grid(shape=tuple(shape), voxel_size=list(vs))
+    # the tables are index arrays: their consumers (darsia.utils.fv, wasserstein) index with them
+    for name in ("connectivity", "reverse_connectivity", "cell_index", "cell_corner_indices"):
+        if np.asarray(getattr(g, name)).dtype.kind not in "iu":
+            raise Violation("index-dtype", f"{name} has dtype {np.asarray(getattr(g, name)).dtype}, not usable "
+                            "as an index", _t(case))
+    return g, RefGrid(shape, vs)
 
 
 def _nt(shape):
@@ -35,6 +41,20 @@ def _nt(shape):
 
 def _t(case):
     return {"dim": len(case["shape"])}
+
+
+def _shape_labels(shape):
+    """Shape classes named by the property: thin (a single-cell axis), single-cell, non-cubic."""
+    lab = [f"dim{len(shape)}"]
+    if int(np.prod(shape)) == 1:
+        lab.append("single-cell")
+    elif 1 in shape and len(shape) > 1:
+        lab.append("thin")
+    if 2 in shape:
+        lab.append("two-cell-axis")
+    if len(set(shape)) > 1:
+        lab.append("non-cubic")
+    return tuple(lab)
 
 
 def check_face_counts(case):
@@ -65,7 +85,7 @@ def check_face_counts(case):
     for idx, n in ref.cell_index.items():
         if int(ci[idx]) != n:
             raise Violation("cell-order", f"cell {idx} numbered {ci[idx]}, Fortran order gives {n}", t)
-    return Outcome(_nt(shape), case)
+    return Outcome(_nt(shape), case, _shape_labels(shape))
 
 
 def check_connectivity(case):
@@ -109,7 +129,7 @@ def check_connectivity(case):
         for idx in np.ndindex(*fs):
             if int(fi[idx]) != ref.face_of(d, idx):
                 raise Violation("face-index", f"axis {d} face at {idx}: {fi[idx]} vs {ref.face_of(d, idx)}", t)
-    return Outcome(_nt(shape), case)
+    return Outcome(_nt(shape), case, _shape_labels(shape))
 
 
 def check_reverse(case):
@@ -142,7 +162,7 @@ def check_reverse(case):
         d = [k for k in range(dim) if f in set(ref.faces_per_axis[k])][0]
         if int(rc[d, con[f, 0], 1]) != f or int(rc[d, con[f, 1], 0]) != f:
             raise Violation("reverse-inverse", f"face {f} not found through its cells", t)
-    return Outcome(_nt(shape), case)
+    return Outcome(_nt(shape), case, _shape_labels(shape))
 
 
 def check_partition(case):
@@ -171,7 +191,15 @@ def check_partition(case):
                         if np.any(rc[dp, con[f, side]] < 0):
                             raise Violation("interior-not-interior", f"face {f} (axis {d}) labelled "
                                             f"interior but lacks a tangential neighbour along {dp}", t)
-    return Outcome(_nt(shape), case)
+            # ... and the converse ("exterior_faces: all faces on the outer boundary of the grid"): a
+            # face labelled exterior has a cell on the outer boundary in some tangential axis. Decided on
+            # the reference enumeration, not on the grid's own lookup tables.
+            for f in exter:
+                fd, lo = ref.faces[f]
+                if all(1 <= lo[a] <= shape[a] - 2 for a in range(dim) if a != fd):
+                    raise Violation("exterior-not-on-boundary", f"face {f} (axis {d}, lower cell {list(lo)}) "
+                                    "labelled exterior but both its cells have all tangential neighbours", t)
+    return Outcome(_nt(shape), case, _shape_labels(shape))
 
 
 def check_corners(case):
@@ -199,12 +227,13 @@ def check_corners(case):
                                     f"{ids.tolist()} have coordinates {corners[ids, d].tolist()} along "
                                     f"the normal, expected {coord}", t)
     nf = int(g.num_faces)
-    return Outcome(nf > 0 and _nt(shape), case)
+    return Outcome(nf > 0 and _nt(shape), case, _shape_labels(shape))
 
 
 def gen_image(tier):
     small = st.fixed_dictionaries({"img": gens.image_specs(
-        dims=(1, 2, 3), max_extent={1: 30, 2: 9, 3: 5}, dtypes=("float64",), max_nt=2, max_comp=2)})
+        dims=(1, 2, 3), max_extent={1: 30, 2: 9, 3: 5}, dtypes=("float64", "float32", "uint8", "bool"), max_nt=2,
+        max_comp=2)})
 
     @st.composite
     def large(draw):
@@ -223,9 +252,66 @@ def gen_image(tier):
     return st.one_of(small, large())
 
 
+class _VRef:
+    """Closed-form reference numbering for grids of any size (index arithmetic only, no slicing /
+    ravel of index arrays as in the code under test): cell c has multi-index (c // stride_a) % n_a
+    with Fortran strides; the faces of axis d are the cells with idx_d < n_d - 1 in increasing cell
+    number (Fortran order of the lower cell), numbered axis after axis; 'interior' (dim >= 2): both
+    cells keep off the outer boundary in every tangential axis."""
+
+    def __init__(self, shape):
+        shape = tuple(int(x) for x in shape)
+        dim = len(shape)
+        nc, strides = 1, []
+        for n in shape:
+            strides.append(nc)
+            nc *= n
+        c = np.arange(nc, dtype=np.int64)
+        idx = [(c // strides[a]) % shape[a] for a in range(dim)]
+        self.shape, self.dim, self.num_cells, self.strides = shape, dim, nc, strides
+        self.faces, self.lower, self.interior_mask = [], [], []
+        self.rc = -np.ones((dim, nc, 2), dtype=np.int64)
+        off = 0
+        for d in range(dim):
+            lower = c[idx[d] < shape[d] - 1]
+            f = off + np.arange(len(lower), dtype=np.int64)
+            self.faces.append(f)
+            self.lower.append(lower)
+            self.rc[d, lower, 1] = f
+            self.rc[d, lower + strides[d], 0] = f
+            inner = np.ones(len(lower), dtype=bool)
+            for a in range(dim):
+                if a != d:
+                    inner &= (idx[a][lower] >= 1) & (idx[a][lower] <= shape[a] - 2)
+            self.interior_mask.append(inner)
+            off += len(lower)
+        self.num_faces = off
+
+    def cell_index(self):
+        out = np.zeros(self.shape, dtype=np.int64)
+        for a, ind in enumerate(np.indices(self.shape)):
+            out += ind * self.strides[a]
+        return out
+
+    def face_index(self, d):
+        sub = list(self.shape)
+        sub[d] -= 1
+        out = np.full(sub, int(self.faces[d][0]) if len(self.faces[d]) else 0, dtype=np.int64)
+        mult = 1
+        for a, ind in enumerate(np.indices(sub)):
+            out += ind * mult
+            mult *= sub[a]
+        return out
+
+
+def _is_int(a):
+    return np.asarray(a).dtype.kind in "iu"
+
+
 def _vector_checks(g, shape, t):
     """Vectorised consistency of the numbering for grids of any size: faces numbered once,
-    connectivity joins neighbours along the normal axis, the cell-to-face lookup is its inverse."""
+    connectivity joins neighbours along the normal axis, the cell-to-face lookup is its inverse;
+    then every table exactly against the closed-form reference _VRef."""
     shape = tuple(int(x) for x in shape)
     dim = len(shape)
     con = np.asarray(g.connectivity)
@@ -234,6 +320,12 @@ def _vector_checks(g, shape, t):
     allf = np.concatenate([np.asarray(g.faces[d]).ravel() for d in range(dim)]) if dim else np.zeros(0, int)
     if len(allf) != nf or not np.array_equal(np.sort(allf), np.arange(nf)):
         raise Violation("grid-face-numbering", "faces are not numbered exactly once", t)
+    # the tables are index arrays: their consumers (darsia.utils.fv, wasserstein) index with them
+    for name, arr in (("connectivity", con), ("reverse_connectivity", rc), ("cell_index", g.cell_index),
+                      ("cell_corner_indices", g.cell_corner_indices)) + tuple(
+            (f"faces[{d}]", g.faces[d]) for d in range(dim)):
+        if not _is_int(arr):
+            raise Violation("grid-index-dtype", f"{name} has dtype {np.asarray(arr).dtype}, not usable as an index", t)
     if con.shape != (nf, 2) or (nf and (con.min() < 0 or con.max() >= int(g.num_cells))):
         raise Violation("grid-connectivity-range", "connectivity holds invalid cell numbers", t)
     strides = np.cumprod((1,) + shape[:-1])  # Fortran-order strides
@@ -253,6 +345,86 @@ def _vector_checks(g, shape, t):
         if int((rc[d, :, 0] == -1).sum()) != nboundary or int((rc[d, :, 1] == -1).sum()) != nboundary \
                 or (rc[d] < -1).any():
             raise Violation("grid-reverse-boundary", f"axis {d}: 'no face' entries are not exactly the boundary", t)
+    _exact_checks(g, _VRef(shape), t)
+
+
+def _exact_checks(g, ref, t):
+    """Every numbering table against the closed-form reference (any grid size)."""
+    shape, dim = ref.shape, ref.dim
+    con = np.asarray(g.connectivity)
+    rc = np.asarray(g.reverse_connectivity)
+    if int(g.num_cells) != ref.num_cells or int(g.num_faces) != ref.num_faces or int(g.dim) != dim:
+        raise Violation("grid-counts", f"{g.num_cells} cells / {g.num_faces} faces for shape {list(shape)}", t)
+    ci = np.asarray(g.cell_index)
+    if ci.shape != shape or not np.array_equal(ci, ref.cell_index()):
+        raise Violation("grid-cell-order", "cell_index is not the Fortran-ordered numbering of the cells", t)
+    if rc.shape != ref.rc.shape:
+        raise Violation("grid-reverse-shape", f"{rc.shape}", t)
+    corners = np.asarray(g.cell_corners)
+    cci = np.asarray(g.cell_corner_indices)
+    if cci.shape != (ref.num_faces, 2, 2 ** (dim - 1)) or corners.shape != (2**dim, dim):
+        raise Violation("grid-corner-shape", f"{cci.shape} / {corners.shape}", t)
+    if ref.num_faces and (cci.min() < 0 or cci.max() >= 2**dim):
+        raise Violation("grid-corner-range", "corner index outside the reference cell", t)
+    for d in range(dim):
+        want_f = ref.faces[d]
+        f = np.asarray(g.faces[d]).ravel()
+        if int(g.num_faces_per_axis[d]) != len(want_f) or not np.array_equal(f, want_f):
+            raise Violation("grid-face-count", f"axis {d}: faces {len(f)} (declared {g.num_faces_per_axis[d]}), "
+                            f"shape {list(shape)} gives {len(want_f)} numbered from "
+                            f"{int(want_f[0]) if len(want_f) else '-'}", t)
+        fs = list(shape)
+        fs[d] -= 1
+        if [int(x) for x in np.asarray(g.faces_shape[d]).ravel()] != fs:
+            raise Violation("grid-faces-shape", f"axis {d}: faces_shape {list(g.faces_shape[d])} vs {fs}", t)
+        fi = np.asarray(g.face_index[d])
+        if list(fi.shape) != fs or not np.array_equal(fi, ref.face_index(d)):
+            raise Violation("grid-face-index", f"axis {d}: face_index is not the Fortran-ordered numbering "
+                            "of the faces of that axis", t)
+        lower = ref.lower[d]
+        if not (np.array_equal(con[want_f, 0], lower) and np.array_equal(con[want_f, 1], lower + ref.strides[d])):
+            bad = int(want_f[(con[want_f, 0] != lower) | (con[want_f, 1] != lower + ref.strides[d])][0])
+            k = bad - int(want_f[0])
+            raise Violation("grid-face-order", f"face {bad} (axis {d}) joins {con[bad].tolist()}, Fortran order of "
+                            f"the faces gives [{int(lower[k])}, {int(lower[k] + ref.strides[d])}]", t)
+        if not np.array_equal(rc[d], ref.rc[d]):
+            c = int(np.argwhere(np.any(rc[d] != ref.rc[d], axis=1))[0][0])
+            raise Violation("grid-reverse", f"axis {d} cell {c}: faces {rc[d, c].tolist()}, expected "
+                            f"{ref.rc[d, c].tolist()}", t)
+        # interior / exterior faces partition the faces of the axis
+        inter = np.asarray(g.interior_faces[d]).ravel()
+        exter = np.asarray(g.exterior_faces[d]).ravel()
+        both = np.concatenate([inter, exter]).astype(np.int64)
+        if len(both) != len(want_f) or not np.array_equal(np.sort(both), want_f):
+            raise Violation("grid-partition", f"axis {d}: interior ({len(inter)}) and exterior ({len(exter)}) faces "
+                            f"do not partition the {len(want_f)} faces of the axis", t)
+        if dim >= 2 and len(want_f):
+            # 1-D: only the partition is promised (see DESIGN); dim >= 2: interior = off the outer
+            # boundary in every tangential axis (consumer: tangential reconstruction; "exterior_faces:
+            # all faces on the outer boundary of the grid")
+            is_inner = ref.interior_mask[d]
+            got_inner = np.zeros(len(want_f), dtype=bool)
+            got_inner[inter.astype(np.int64) - int(want_f[0])] = True
+            if (got_inner & ~is_inner).any():
+                bad = int(want_f[got_inner & ~is_inner][0])
+                raise Violation("grid-interior-not-interior", f"face {bad} (axis {d}) labelled interior but one of "
+                                "its cells lies on the outer boundary in a tangential axis", t)
+            if (~got_inner & is_inner).any():
+                bad = int(want_f[~got_inner & is_inner][0])
+                raise Violation("grid-exterior-not-on-boundary", f"face {bad} (axis {d}) labelled exterior but both "
+                                "its cells have all tangential neighbours", t)
+        if len(want_f):
+            for side, coord in ((0, 1.0), (1, 0.0)):
+                ids = cci[want_f, side]  # (faces, 2^(dim-1))
+                if not np.all(corners[ids, d] == coord):
+                    bad = int(want_f[np.argwhere(np.any(corners[ids, d] != coord, axis=1))[0][0]])
+                    raise Violation("grid-corner-not-on-face", f"face {bad} (axis {d}) side {side}: corners "
+                                    f"{cci[bad, side].tolist()} do not all lie on the face", t)
+                srt = np.sort(ids, axis=1)
+                if srt.shape[1] > 1 and (np.diff(srt, axis=1) == 0).any():
+                    raise Violation("grid-corner-distinct", f"axis {d} side {side}: a corner is listed twice", t)
+    if {tuple(c) for c in corners.tolist()} != set(itertools.product((0.0, 1.0), repeat=dim)):
+        raise Violation("grid-cell-corners", "reference cell corners are not {0,1}^dim", t)
 
 
 def gen_image_sequence(tier):
@@ -296,8 +468,12 @@ def check_grid_follows_image(case):
 def check_grid_from_image(case):
     spec = case["img"]
     img = gens.build_image(spec)
+    before = gens.snapshot(img)
     g = darsia.generate_grid(img)
     t = {"dim": spec["dim"]}
+    same, what = gens.snapshot_equal(before, gens.snapshot(img))
+    if not same:
+        raise Violation("generate-grid-changes-image", f"the image is modified by generate_grid: {what}", t)
     if list(g.shape) != list(spec["shape"]) or g.dim != spec["dim"]:
         raise Violation("grid-shape", f"{g.shape} vs {spec['shape']}", t)
     vs = np.asarray(g.voxel_size, dtype=float)
@@ -318,14 +494,180 @@ def check_grid_from_image(case):
     fv = np.asarray(g.face_vol, dtype=float)
     if not np.allclose(fv, [np.prod(np.delete(want, d)) for d in range(spec["dim"])], rtol=1e-14):
         raise Violation("grid-face-vol", f"{fv.tolist()}", t)
-    return Outcome(_nt(spec["shape"]), [spec["shape"], spec["dimensions"]],
-                   (f"dim{spec['dim']}", "series" if spec["series"] else "single",
-                    "large" if case.get("large") else "small"))
+    labels = [f"dim{spec['dim']}", "series" if spec["series"] else "single",
+              "large" if case.get("large") else "small", spec["payload"], spec["dtype"]]
+    if int(g.num_faces) > 2**15 >= tot:
+        labels.append("faces>2^15>=cells")
+    if 1 in spec["shape"] and spec["dim"] > 1:
+        labels.append("thin")
+    return Outcome(_nt(spec["shape"]), [spec["shape"], spec["dimensions"]], tuple(labels))
+
+
+# ---------------------------------------------------------------------------------------------
+# direct construction under every documented call form
+# ---------------------------------------------------------------------------------------------
+
+_VOX = [1.0, 0.5, 0.3, 1e-4, 2.5e-3, 7.0, 1234.5, 1e6]
+
+
+def _draw_shape(draw, dim, big):
+    if big:
+        mx = {1: 3000, 2: 150, 3: 30}[dim]
+        return [draw(st.integers(1, mx)) for _ in range(dim)]
+    mx = {1: 14, 2: 8, 3: 5}[dim]
+    # single-cell and two-cell axes are the hazard of the index arithmetic: keep them frequent
+    return [draw(st.one_of(st.sampled_from([1, 2, 3]), st.integers(1, mx))) for _ in range(dim)]
+
+
+def gen_call_forms(tier):
+    @st.composite
+    def strat(draw):
+        dim = draw(st.sampled_from([1, 2, 3]))
+        big = draw(st.sampled_from([False, False, False, True]))
+        form = draw(st.sampled_from(["default", "scalar", "list", "list-iso"]))
+        case = {"shape": _draw_shape(draw, dim, big), "shape_as": draw(st.sampled_from(["tuple", "list"])),
+                "form": form, "big": big}
+        if form == "scalar":
+            case["vs"] = draw(st.sampled_from(_VOX))
+        elif form == "list":
+            case["vs"] = [draw(st.sampled_from(_VOX)) for _ in range(dim)]
+        elif form == "list-iso":
+            case["vs"] = [draw(st.sampled_from(_VOX))] * dim
+        return case
+
+    return strat()
+
+
+def _construct(shape, shape_as, form, vs):
+    """Grid(...) under one documented call form (shape: tuple, as documented, or list, as
+    generate_grid passes it; voxel_size: omitted / float / list). Returns grid and the arguments."""
+    shape_arg = tuple(shape) if shape_as == "tuple" else list(shape)
+    if form == "default":
+        return darsia.Grid(shape_arg), shape_arg, None
+    if form == "scalar":
+        return darsia.Grid(shape_arg, float(vs)), shape_arg, float(vs)
+    vs_arg = [float(v) for v in vs]
+    return darsia.Grid(shape=shape_arg, voxel_size=vs_arg), shape_arg, vs_arg
+
+
+def _check_sizes(g, shape, form, vs, t):
+    dim = len(shape)
+    want = np.ones(dim) if form == "default" else (float(vs) * np.ones(dim) if form == "scalar"
+                                                    else np.array([float(v) for v in vs]))
+    got = np.asarray(g.voxel_size, dtype=float)
+    if got.shape != (dim,) or not np.array_equal(got, want):
+        raise Violation(f"voxel-size:{'list' if form.startswith('list') else form}",
+                        f"grid.voxel_size {got.tolist()} for voxel_size argument {vs!r} (dim {dim})", t)
+    fv = np.asarray(g.face_vol, dtype=float)
+    want_fv = np.array([np.prod(np.delete(want, d)) for d in range(dim)])
+    if fv.shape != (dim,) or not np.allclose(fv, want_fv, rtol=1e-14, atol=0):
+        raise Violation(f"face-vol:{'list' if form.startswith('list') else form}",
+                        f"face_vol {fv.tolist()} vs {want_fv.tolist()} for voxel sizes {want.tolist()}", t)
+
+
+def check_call_forms(case):
+    """The numbering depends on the shape only: under every documented call form (shape as tuple
+    or list; voxel_size omitted, a float, a list - order one or far from it) all tables equal the
+    closed-form reference, voxel_size / face_vol follow the argument, arguments are left alone."""
+    shape, form = case["shape"], case["form"]
+    t = {"dim": len(shape), "form": form, "shape_as": case["shape_as"]}
+    g, shape_arg, vs_arg = _construct(shape, case["shape_as"], form, case.get("vs"))
+    if list(shape_arg) != list(shape) or type(shape_arg) is not (tuple if case["shape_as"] == "tuple" else list):
+        raise Violation("argument-changed:shape", f"shape argument is now {shape_arg!r}", t)
+    if isinstance(vs_arg, list) and vs_arg != [float(v) for v in case["vs"]]:
+        raise Violation("argument-changed:voxel_size", f"voxel_size argument {case['vs']} is now {vs_arg!r}", t)
+    if [int(x) for x in g.shape] != list(shape) or int(g.dim) != len(shape):
+        raise Violation("grid-shape", f"{g.shape} vs {shape}", t)
+    _check_sizes(g, shape, form, case.get("vs"), t)
+    _vector_checks(g, shape, t)
+    return Outcome(_nt(shape), [shape, case["shape_as"], form, case.get("vs")],
+                   _shape_labels(shape) + (f"vs:{form}", f"shape:{case['shape_as']}", "big" if case["big"] else "small"))
+
+
+# ---------------------------------------------------------------------------------------------
+# several grids in one process: no grid depends on the grids / images seen before
+# ---------------------------------------------------------------------------------------------
+
+def _divisors(n):
+    return [k for k in range(1, n + 1) if n % k == 0]
+
+
+def gen_grid_sequences(tier):
+    @st.composite
+    def strat(draw):
+        dim = draw(st.sampled_from([1, 2, 3]))
+        mx = {1: 24, 2: 8, 3: 5}[dim]
+        shape = [draw(st.integers(1, mx)) for _ in range(dim)]
+        dims0 = [draw(st.sampled_from([1.0, 0.3, 2.0, 12.0])) for _ in range(dim)]
+        items = [{"shape": shape, "rel": "first"}]
+        for _ in range(draw(st.integers(1, 3))):
+            rel = draw(st.sampled_from(["same", "permuted", "same-count", "fresh"]))
+            prev = items[-1]["shape"]
+            if rel == "same" or (dim == 1 and rel != "fresh"):
+                nxt, rel = list(prev), "same"
+            elif rel == "permuted":
+                nxt = list(draw(st.permutations(prev)))
+            elif rel == "same-count":
+                n = int(np.prod(prev))
+                nxt = []
+                for _k in range(dim - 1):
+                    nxt.append(draw(st.sampled_from(_divisors(n))))
+                    n //= nxt[-1]
+                nxt.append(n)
+            else:
+                nxt = [draw(st.integers(1, mx)) for _ in range(dim)]
+            items.append({"shape": nxt, "rel": rel})
+        for it in items:
+            it["via"] = draw(st.sampled_from(["image", "image", "direct"]))
+            # images of one sequence share name, dtype and (mostly) the physical dimensions
+            it["dimensions"] = dims0 if draw(st.sampled_from([True, True, False])) else [
+                draw(st.sampled_from([1.0, 0.3, 2.0, 12.0])) for _ in range(dim)]
+        return {"dim": dim, "items": items}
+
+    return strat()
+
+
+def _plain_spec(dim, shape, dimensions):
+    return {"dim": dim, "shape": list(shape), "dimensions": list(dimensions), "origin": None, "payload": "scalar",
+            "ncomp": 0, "series": False, "nt": 0, "dtype": "float64", "time": "none", "t0": 0, "dt": 1,
+            "pseed": 0, "name": "img"}
+
+
+def check_grid_sequences(case):
+    """Build 2-4 grids one after the other (from images that agree in everything but the shape -
+    same shape again, permuted shape, another shape with the same number of voxels - and directly),
+    *then* verify every one of them: each grid is the grid of its own shape / image."""
+    dim = case["dim"]
+    t = {"dim": dim}
+    built = []
+    for it in case["items"]:
+        if it["via"] == "image":
+            img = gens.build_image(_plain_spec(dim, it["shape"], it["dimensions"]))
+            built.append((it, darsia.generate_grid(img), img))
+        else:
+            built.append((it, darsia.Grid(tuple(it["shape"]), [float(v) for v in it["dimensions"]]), None))
+    for k, (it, g, img) in enumerate(built):
+        tt = dict(t, via=it["via"], rel=it["rel"])
+        if [int(x) for x in g.shape] != list(it["shape"]):
+            raise Violation("grid-of-another-shape", f"grid {k} of the sequence ({it['via']}, {it['rel']}) has "
+                            f"shape {tuple(g.shape)}, requested {it['shape']}; sequence "
+                            f"{[i['shape'] for i in case['items']]}", tt)
+        want = np.array(it["dimensions"], float) / (np.array(it["shape"]) if img is not None else 1.0)
+        if not np.array_equal(np.asarray(g.voxel_size, float), want):
+            raise Violation("grid-of-another-shape", f"grid {k} of the sequence has voxel size "
+                            f"{np.asarray(g.voxel_size).tolist()}, expected {want.tolist()}", tt)
+        _vector_checks(g, it["shape"], tt)
+    rels = tuple(sorted({it["rel"] for it in case["items"][1:]}))
+    return Outcome(any(r != "fresh" for r in rels) or len(case["items"]) > 2,
+                   [[i["shape"], i["via"], i["dimensions"]] for i in case["items"]],
+                   (f"dim{dim}",) + rels + tuple(sorted({"via:" + i["via"] for i in case["items"]})))
 
 
 _RULE = ("enumerate every grid shape with extents 1..12 (1-D), 1..7 (2-D), 1..5 (3-D) [quick] or "
          "1..40 / 1..12 / 1..7 [thorough] and compare every table with an independent Fortran-order "
-         "enumeration; image-derived grids from Hypothesis-drawn images; non-trivial = at least two "
+         "enumeration; image-derived grids from Hypothesis-drawn images, directly constructed grids under "
+         "every documented call form and sequences of grids in one process (extents up to 3000 / 160 / 40) "
+         "compared table by table with a closed-form index-arithmetic reference; non-trivial = at least two "
          "axes of extent >= 2, or a single-cell axis beside an axis of extent >= 3; distinct = shape")
 _ONE = {"quick": 4, "thorough": 8}
 
@@ -333,7 +675,12 @@ PROP = Prop(
     pid="C07",
     rule=_RULE,
     assumptions=["RefGrid (triple-loop Fortran-order enumeration) is the reference",
-                 "1-D 'interior' labelling is only required to partition the faces"],
+                 "1-D 'interior' labelling is only required to partition the faces",
+                 "dim >= 2: a face is interior iff both its cells have all tangential neighbours (unit test "
+                 "test_compatibility for one direction, the source comment 'exterior_faces: all faces on the "
+                 "outer boundary of the grid' for the other)",
+                 "documented call forms: shape as tuple (or list, as generate_grid passes it); voxel_size "
+                 "omitted, float or list"],
     subs=[
         Sub("face_counts", check_face_counts, enum=enum_shapes, exhaustive=True, shards=_ONE),
         Sub("connectivity", check_connectivity, enum=enum_shapes, exhaustive=True, shards=_ONE),
@@ -343,6 +690,10 @@ PROP = Prop(
         Sub("grid_follows_image_changes", check_grid_follows_image, gen=gen_image_sequence,
             n={"quick": 400, "thorough": 8000}, shards={"quick": 2, "thorough": 8}),
         Sub("grid_from_image", check_grid_from_image, gen=gen_image,
-            n={"quick": 2400, "thorough": 40000}, shards={"quick": 6, "thorough": 16}),
+            n={"quick": 2400, "thorough": 40000}, shards={"quick": 8, "thorough": 16}),
+        Sub("direct_call_forms", check_call_forms, gen=gen_call_forms,
+            n={"quick": 600, "thorough": 16000}, shards={"quick": 3, "thorough": 16}),
+        Sub("grids_do_not_share_state", check_grid_sequences, gen=gen_grid_sequences,
+            n={"quick": 300, "thorough": 8000}, shards={"quick": 2, "thorough": 8}),
     ],
 )
